@@ -15,6 +15,11 @@ def run(res, b, tier, seed):
         res.violation("build", dict(harness=b.harness_error, model=b.model_error), no_input=True)
         return
     rows = list(gen_typed.table(full=(tier != "quick")))
+    # acceptance must not depend on the target: statements the two converters treat differently
+    rows.append(dict(name="break-in-switch", offered="-", ctx="switch", expect=None,
+                     src=gen_typed.PRELUDE + "switch 1 {\ncase 1:\n\tprint(1)\n\tbreak\n}\n"))
+    rows.append(dict(name="break-in-switch-in-loop", offered="-", ctx="switch", expect=True,
+                     src=gen_typed.PRELUDE + "for {\n\tswitch 1 {\n\tcase 1:\n\t\tbreak\n\t}\n\tbreak\n}\n"))
     cases = [pipeline.Case("t%d" % i, {"main.tsh": r["src"].encode()}, meta=r) for i, r in enumerate(rows)]
     pipeline.run_pipe(b, cases, "asw")
     pipeline.model_parse(b, cases)
@@ -60,6 +65,8 @@ def run(res, b, tier, seed):
     real = []
     for c, kind, detail in fails:
         if c.meta["name"] in KNOWN_NESTED and kind == "ill-typed-accepted" and res.known_finding("nested-return-unchecked", kind):
+            continue
+        if c.meta["name"] == "break-in-switch" and kind == "target-dependent" and res.known_finding("break-in-switch", kind):
             continue
         real.append((c, kind, detail))
     for c, kind, detail in real[:3]:
